@@ -59,6 +59,12 @@ CLAIMS["C25"] = {
     "note": "Trusted: Kani/CBMC; the bit-mask container model; NodeId abstracted to a 1-byte id. Function bodies are those of /repo's announce.rs and sync.rs.",
 }
 
+CLAIMS["C03"] = {
+    "technique": _T + " (canonical.rs shadowed into a shim crate; the git repository is a symbolic commit graph behind merge_base)",
+    "text": "For every DAG on 4 commits, every assignment of tips to 2, 3 and 4 delegates (several on one commit included), every threshold and every admissible merge_base answer, the solver shows that a returned head is a delegate tip in the history of at least threshold distinct delegates with no other sufficiently supported tip descending from it, that NoCandidates is returned only when no tip has enough distinct supporters, and that Diverging is returned only when the sufficiently supported tips are not a chain.",
+    "note": "Trusted: Kani/CBMC; the symbolic repository (merge_base contract) and the 1-byte id abstraction; the 4-slot map model. The function body of quorum is /repo's.",
+}
+
 NOT_APPLICABLE = {
     "C01": "post-fetch refdb contents vs signed refs: decided inside FetchState::run over gix transport, libgit2 ref transactions and ed25519 signatures (FFI / curve arithmetic) - not encodable for CBMC/SMT within reach (DESIGN §7)",
     "C02": "threshold gate and Behind/Diverged handling are statements inside FetchState::run between git I/O calls; no function boundary to drive symbolically (DESIGN §7)",
